@@ -2865,14 +2865,16 @@ def replace_filter_lambda_with_comp(source: str) -> str:
         yield replacement_range, replacement
 
     find = "filterfalse(lambda {{arg}}: {{body}}, {{iterable}})"
-    replace = "({{arg}} for {{arg}} in {{iterable}} if not {{body}})"
+    # The body is negated as a whole: 'not a or b' would only negate a.
+    replace = "({{arg}} for {{arg}} in {{iterable}} if not ({{body}}))"
     for replacement_range, replacement in processing.find_replace(
         source, (find, "itertools." + find), replace
     ):
         if any(replacement_range & for_range for for_range in for_ranges):
             continue
 
-        yield replacement_range, replacement
+        # Get rid of the parentheses again where they are not needed
+        yield replacement_range, ast.unparse(ast.parse(replacement, mode="eval"))
 
 
 @processing.fix
